@@ -42,6 +42,19 @@ def sym_isinstance(eng, obj: VObj, cls):
 
 
 # ---------------------------------------------------------------------------
+def _class_key_of(v):
+    if isinstance(v, VClass):
+        return z3.IntVal(cls_code(v.py))
+    if isinstance(v, VFunc) and v.kind == "typeof":
+        return typeof_f(v.obj.e)
+    if isinstance(v, VFunc) and v.kind == "symcls":
+        return v.code
+    return None
+
+
+CLASS_KEY["fn"] = _class_key_of
+
+
 def install(eng):
     import sys
     eng.builtin_mod = sys.modules[__name__]
@@ -596,6 +609,8 @@ def index_(eng, st, base, idx):
         if r is not None:
             return r
     o = heap_obj(st, base)
+    if o is not None and o.kind == "slist":
+        base, o = VSeq(o.f["e"], o.f["elem"]), None
     if isinstance(base, VNoneT):
         return ok(st, eng.raise_py(st, TypeError, "'NoneType' object is not subscriptable"))
     if isinstance(base, (VBytes, VStr, VSeq)) or (o is not None and o.kind == "buf"):
@@ -774,6 +789,13 @@ def encode_elem(eng, st, v: V, ty: Ty):
     if h in ("int", "bool", "real", "str", "bytes", "obj"):
         if h == "int":
             return as_int(v)
+        if h == "obj":
+            from .heapmodel import box
+            return box(eng, st, v)
+        if h == "seq" or not hasattr(v, "e"):
+            pass
+        if isinstance(v, VRef) and st.heap[v.oid].kind == "slist":
+            return st.heap[v.oid].f["e"]
         return v.e
     if h == "enum":
         if not (isinstance(v, VEnum) and v.cls is eng.resolve_class(ty.args[0].head)):
@@ -785,6 +807,8 @@ def encode_elem(eng, st, v: V, ty: Ty):
     if h == "seq":
         if isinstance(v, VSeq):
             return v.e
+        if isinstance(v, VRef) and st.heap[v.oid].kind == "slist":
+            return st.heap[v.oid].f["e"]
         items = eng.iter_concrete(v, st)
         units = [z3.Unit(encode_elem(eng, st, x, ty.args[0])) for x in items]
         return z3.Empty(elem_sort(eng, ty)) if not units else (units[0] if len(units) == 1 else z3.Concat(*units))
@@ -1199,7 +1223,31 @@ def m_slist_append(eng, st, recv, args, kwargs):
     return ok(st, VNone)
 
 
-SLIST_METHODS = {"append": m_slist_append}
+def m_slist_pop(eng, st, recv, args, kwargs):
+    """pop(0) / pop() on a symbolic-length list: IndexError when empty."""
+    o = st.heap[recv.oid]
+    e = o.f["e"]
+    n = z3.Length(e)
+    first = bool(args) and z3.is_int_value(simp(as_int(args[0]))) and simp(as_int(args[0])).as_long() == 0
+    if args and not first:
+        raise Unsupported("list.pop(i) on a symbolic list for i != 0")
+    out = []
+    for s2, tv in eng.fork_bool(n > 0, st, "pop"):
+        if not tv:
+            out.append((s2, eng.raise_py(s2, IndexError, "pop from empty list")))
+            continue
+        o2 = s2.heap[recv.oid]
+        if first:
+            val = decode_elem(eng, s2, e[0], o2.f["elem"])
+            o2.f["e"] = z3.SubSeq(e, 1, n - 1)
+        else:
+            val = decode_elem(eng, s2, e[n - 1], o2.f["elem"])
+            o2.f["e"] = z3.SubSeq(e, 0, n - 1)
+        out.append((s2, val))
+    return out
+
+
+SLIST_METHODS = {"append": m_slist_append, "pop": m_slist_pop}
 
 
 def m_sset_add(eng, st, recv, args, kwargs):
@@ -1365,11 +1413,11 @@ def comprehension(eng, n, st, kind):
 # special forms of the contract / ghost language
 # ---------------------------------------------------------------------------
 def sf_old(eng, n, st):
-    if st.old is None:
-        raise Unsupported("old() outside a postcondition")
     lbl = None
     if len(n.args) == 2:
         lbl = n.args[1].value
+    if st.old is None and lbl is None:
+        raise Unsupported("old() outside a postcondition")
     base = st.labels[lbl] if lbl else st.old
     scratch = base.clone()
     scratch.pc = list(st.pc)
